@@ -270,3 +270,4 @@ def fidelity(tier, seed):
 from contracts.shared import reregister as _rr_static
 from contracts import c19 as _c19_static
 _rr_static('C07', 'C19', 'C19.no_stateful_local_statics', 'C07.lemma.no_state_between_calls', replay=None)
+from contracts import c04 as _c04_c07  # noqa: sector contracts (spectrum == spectrum of the mass matrices) registered under C07 there
